@@ -36,11 +36,13 @@ ANCHORS = [
 RULE = ("honest PSBTs of random m-of-n wallets (1 <= m <= n <= 4; P2SH through create_multisig_psbt, P2WSH and "
         "P2SH-P2WSH through PSBT.create/update), 1..3 inputs, 1..3 outputs with or without change, summary requested "
         "with the PSBT's global xpubs and with a caller-supplied hdpubkey_map; for every honest PSBT every applicable "
-        "item of the tampering catalogue (20 items, second change with amounts 0 / 1 / dust / large in both orders; input-side items at every input position, change first / middle / last, honest 0-sat change / spend outputs, xpubs inside the PSBT or only in the caller's map, inputs sharing one wallet address), the change output under the {scriptPubKey kind} x {RedeemScript record} x {WitnessScript record} matrix, and 13 non-template scripts with all the genuine keys (other final opcode, extra opcode, OP_m / OP_n off by one) on the change output and on every input; the summary fields or REJECT are compared with the model; a case "
+        "item of the tampering catalogue (20 items, second change with amounts 0 / 1 / dust / large in both orders; input-side items at every input position, change first / middle / last, honest 0-sat change / spend outputs, xpubs inside the PSBT or only in the caller's map, inputs sharing one wallet address, cosigners whose xpubs sit at different depths (account paths of 1..5 components, caller's map shuffled), 2..3 spend outputs paying one address with / without another payee and change), the change output under the {scriptPubKey kind} x {RedeemScript record} x {WitnessScript record} matrix, and 13 non-template scripts with all the genuine keys (other final opcode, extra opcode, OP_m / OP_n off by one) on the change output and on every input; the summary fields or REJECT are compared with the model; a case "
         "is non-trivial always; distinct = distinct (PSBT bytes, hdpubkey_map) requests")
 CLAUSES = {
     "fee = sum(inputs) - sum(outputs); spend + change + fee = sum(inputs)":
-        "proved (summary_fee, summary_partition, summary_totals, summary_outputs, summary_single_change — about the NUMBER of "
+        "proved (summary_fee, summary_partition, summary_totals, summary_outputs, summary_spend_counts_outputs — spend is the sum of "
+        "ALL non-change outputs and is_batch <=> more than one of them, counted per output, not per address; "
+        "summary_single_change — about the NUMBER of "
         "change-labelled outputs, whatever their amounts: a second one is refused also after a 0-sat first one; "
         "input_value_is_utxo_amount ties the summed values to the UTXO records PSBT.parse read)",
     "is_change => scriptPubKey is P2SH / P2WSH / P2SH-P2WSH of the attached script by hash":
@@ -135,14 +137,14 @@ def request(cfg, raw, hmap, o):
 
 
 # ----------------------------------------------------------------------------------------- honest PSBTs
-def build_p2sh_via_helper(rng, w, n_inputs, n_spend, with_change, same_addr=False, change_at=None, zero_out=None):
+def build_p2sh_via_helper(rng, w, n_inputs, n_spend, with_change, same_addr=False, change_at=None, zero_out=None, same_payee=0):
     """psbt_helper.create_multisig_psbt: records [xfp, xpub at the base path, base path]"""
     from buidl.psbt_helper import create_multisig_psbt
     from buidl.script import P2WPKHScriptPubKey, P2PKHScriptPubKey
 
     b = PC.Built()
     b.wallet = w
-    records = [[w.xfps[k], w.accounts[k].xpub(), w.base_path] for k in range(w.n)]
+    records = [[w.xfps[k], w.accounts[k].xpub(), w.base_paths[k]] for k in range(w.n)]
     input_dicts, total = [], 0
     b.input_index, b.prev_txs = [], []
     for _ in range(n_inputs):
@@ -157,7 +159,7 @@ def build_p2sh_via_helper(rng, w, n_inputs, n_spend, with_change, same_addr=Fals
         b.prev_txs.append(prev)
         b.input_index.append(idx)
         total += amount
-        input_dicts.append({"quorum_m": w.m, "path_dict": {w.xfps[k]: w.root_path(0, idx) for k in range(w.n)},
+        input_dicts.append({"quorum_m": w.m, "path_dict": {w.xfps[k]: w.root_path(0, idx, k) for k in range(w.n)},
                             "prev_tx_dict": {"hex": prev.serialize().hex(), "hash_hex": prev.hash().hex(),
                                              "output_idx": pos, "output_sats": amount}})
     fee = rng.randrange(2_000, 12_000)
@@ -168,16 +170,17 @@ def build_p2sh_via_helper(rng, w, n_inputs, n_spend, with_change, same_addr=Fals
     output_dicts = []
     b.change_pos = None
     amounts = PC.split_amounts(rng, remaining, n_out, change_at, zero_out)
+    payees = []
     for o in range(n_out):
         amt = amounts[o]
         if o == change_at:
             cidx = rng.randrange(0, 6)
             spk, rs, ws = w.scripts(1, cidx)
             output_dicts.append({"sats": amt, "address": spk.address(network=PC.NET), "quorum_m": w.m,
-                                 "path_dict": {w.xfps[k]: w.root_path(1, cidx) for k in range(w.n)}})
+                                 "path_dict": {w.xfps[k]: w.root_path(1, cidx, k) for k in range(w.n)}})
             b.change_pos, b.change_index = o, cidx
         else:
-            spk = rng.choice([P2WPKHScriptPubKey, P2PKHScriptPubKey])(PC.rbytes(rng, 20))
+            spk = PC.spend_spk(rng, payees, same_payee)
             output_dicts.append({"sats": amt, "address": spk.address(network=PC.NET)})
     b.psbt = create_multisig_psbt(records, input_dicts, output_dicts, fee, script_type="p2sh")
     b.total_in, b.fee = total, fee
@@ -256,7 +259,7 @@ def tamper(name, rng, b, raw, pos=0):
         for key, hd in list(q.hd_pubs.items()):
             if hd.root_fingerprint.hex() == w.xfps[k]:
                 pub = other.accounts[0].pub
-                repl = NamedHDPublicKey.from_hd_pub(child_hd_pub=pub, xfp_hex=w.xfps[k], path=w.base_path)
+                repl = NamedHDPublicKey.from_hd_pub(child_hd_pub=pub, xfp_hex=w.xfps[k], path=w.base_paths[k])
                 del q.hd_pubs[key]
                 q.hd_pubs[repl.raw_serialize()] = repl
         return q.serialize()
@@ -616,19 +619,19 @@ def psbt_job(spec):
 def _psbt_job(spec, lines, preds):
     _setup()
     rng = random.Random(spec["seed"])
-    w = PC.make_wallet(rng, spec["m"], spec["n"], spec["stype"])
+    w = PC.make_wallet(rng, spec["m"], spec["n"], spec["stype"], mixed_depth=bool(spec.get("mixed_depth")))
     case0 = {"spec": spec}
     in_psbt = spec.get("xpubs_in_psbt", True)
     if spec["stype"] == "p2sh" and spec["via_helper"]:
         b = build_p2sh_via_helper(rng, w, spec["n_inputs"], spec["n_spend"], spec["change"],
                                   same_addr=spec.get("same_addr", False), change_at=spec.get("change_at"),
-                                  zero_out=spec.get("zero_out"))
+                                  zero_out=spec.get("zero_out"), same_payee=spec.get("same_payee", 0))
         if not in_psbt:
             b.psbt.hd_pubs = {}          # a "slimmed down" PSBT: the caller has to supply the xpubs
     else:
         b = PC.build_psbt(rng, w, n_inputs=spec["n_inputs"], n_spend=spec["n_spend"], with_change=spec["change"],
                           global_xpubs=in_psbt, unknowns=spec["unknowns"], same_addr=spec.get("same_addr", False),
-                          change_at=spec.get("change_at"), zero_out=spec.get("zero_out"))
+                          change_at=spec.get("change_at"), zero_out=spec.get("zero_out"), same_payee=spec.get("same_payee", 0))
     raw = b.psbt.serialize()
     # the two ways of giving describe_basic_multisig the cosigners' xpubs
     styles = ([("global xpubs", None)] if in_psbt else []) + [("caller map", w.hdpubkey_map())]
@@ -662,6 +665,11 @@ def _psbt_job(spec, lines, preds):
                       [fee, tin, tout, spend, change], [b.fee, b.total_in, sum(o.amount for o in outs)]))
         preds.append(("honest_change_labels_exact", dict(case0, pred="honest_change_labels_exact", map=label),
                       got_change == want_change, got_change, want_change))
+        # what is spent is counted per OUTPUT, not per address: several outputs may pay one address
+        spends = [o.amount for i, o in enumerate(outs) if i != b.change_pos]
+        want_tot = [sum(spends), 0 if b.change_pos is None else outs[b.change_pos].amount, 1 if len(spends) > 1 else 0]
+        preds.append(("honest_spend_totals", dict(case0, pred="honest_spend_totals", map=label),
+                      [spend, change, int(t[5])] == want_tot and spend + change == tout, [spend, change, int(t[5])], want_tot))
     # tampering catalogue: input-side items at EVERY input position, output-side items on the change output
     # (whose position the spec moves through first / middle / last), each with every applicable xpub style
     for name in TAMPERS:
@@ -789,7 +797,15 @@ def psbt_specs(ctx):
                       "zero_out": {1: "change", 4: "spend"}.get(k % 7),
                       # the whole {scriptPubKey} x {RedeemScript record} x {WitnessScript record} matrix on the change output
                       # (otherwise a sample of it)
-                      "full_matrix": bool(ctx.thorough) or k % 6 == 0})
+                      "full_matrix": bool(ctx.thorough) or k % 6 == 0,
+                      # every cosigner exported his xpub at his own account path (depths 1..5), caller's map shuffled
+                      "mixed_depth": n >= 2 and k % 4 == 1,
+                      # the first 2..3 spend outputs pay ONE address (n_spend raised accordingly)
+                      # k % 10 = 3: two to one address; 7: three plus a distinct payee; 8: two plus a distinct payee; 9: 2 or 3, no change
+                      "same_payee": {3: 2, 7: 3, 8: 2, 9: 3 if k % 20 == 9 else 2}.get(k % 10, 0)})
+        sp = specs[-1]
+        if sp["same_payee"]:
+            sp["n_spend"] = sp["same_payee"] + (1 if k % 10 in (7, 8) else 0)
     return specs
 
 
@@ -903,6 +919,7 @@ PREDICATE_DOC = {
     "honest_described": "an honest P2SH / P2WSH PSBT is summarised (no exception)",
     "p2sh_p2wsh_unsupported": "P2SH-P2WSH inputs are refused altogether (documented limitation), also by the model",
     "honest_sums_add_up": "fee = inputs - outputs = the fee the wallet intended; spend + change + fee = inputs",
+    "honest_spend_totals": "spend_sats = the sum of ALL non-change outputs (also when several pay one address), change_sats = the change output's amount, spend + change = total output, is_batch_tx <=> more than one non-change output",
     "honest_change_labels_exact": "is_change is true for the wallet's change output and for no other output",
     "no_xpubs_refused": "without global xpubs and without hdpubkey_map the summary is refused",
     "change_label_commits": "under every {scriptPubKey kind} x {RedeemScript record} x {WitnessScript record} combination on the change output, it is labelled change only if the scriptPubKey itself commits by hash (P2WSH, P2SH, P2SH-P2WSH) to the wallet's script through the attached records",
